@@ -8,10 +8,13 @@ QUICK_X = 2
 THOROUGH_X = 4
 
 
-def rapid(pkg, test, q, t, tshards=16, **kw):
+def rapid(pkg, test, q, t, tshards=16, few_shards=None, **kw):
     u = {"kind": "rapid", "pkg": pkg, "test": test,
          "quick": {"checks": q * QUICK_X, "shards": 1},
          "thorough": {"checks": t * THOROUGH_X, "shards": max(tshards, 16)}}
+    if few_shards:
+        # units whose cases keep many goroutines spinning: a few processes at a time
+        u["thorough"]["shards"] = few_shards
     u.update(kw)
     return u
 
@@ -26,7 +29,7 @@ CHECKS = {
     "C03": {"units": [rapid("freex", "TestC03Free", 1000, 600, 16), rapid("bcastx", "TestC03", 10000, 100000)]},
     "C04": {"units": [rapid("freex", "TestC04Free", 1000, 600, 16), rapid("routinex", "TestC04", 10000, 60000)]},
     "C05": {"units": [rapid("freex", "TestC05Free", 300, 300, 16), rapid("routinex", "TestC05", 8000, 60000)]},
-    "C12": {"units": [rapid("lifox", "TestC12Controlled", 6000, 10000), rapid("lifox", "TestC12Free", 1000, 1000, 16), rapid("lifox", "TestC12Burst", 400, 400, 8), rapid("lifox", "TestC12ListBurst", 400, 400, 8), rapid("lifox", "TestC12PopRace", 300, 600, 4)]},
+    "C12": {"units": [rapid("lifox", "TestC12Controlled", 6000, 10000), rapid("lifox", "TestC12Free", 1000, 1000, 16), rapid("lifox", "TestC12Burst", 400, 400, 8), rapid("lifox", "TestC12ListBurst", 400, 400, 8), rapid("lifox", "TestC12PopRace", 300, 300, few_shards=2)]},
     "C13": {"units": [rapid("racex", "TestC13", 2500, 5000, 16, race=True, shrinktime="5s")]},
     "C14": {"units": [rapid("routinex", "TestC14Backoff", 1500, 5000, 8), rapid("routinex", "TestC14", 10000, 60000)]},
     "C06": {"units": [rapid("keyedx", "TestC06Keyed", 6000, 40000), rapid("keyedx", "TestC06RefCount", 6000, 40000)]},
@@ -35,9 +38,9 @@ CHECKS = {
     "C09": {"units": [rapid("freex", "TestC09Free", 1000, 600, 16), rapid("refcountx", "TestC09", 8000, 50000)]},
     "C10": {"units": [rapid("refcountx", "TestC10", 12000, 60000)]},
     "C11": {"units": [rapid("freex", "TestC11Free", 1500, 800, 16), rapid("promisex", "TestC11", 10000, 80000)]},
-    "C15": {"units": [rapid("freex", "TestC15Free", 1000, 800, 16), rapid("ccontx", "TestC15", 10000, 80000)]},
+    "C15": {"units": [rapid("freex", "TestC15Free", 1000, 800, 16), rapid("ccontx", "TestC15", 10000, 80000), rapid("ccontx", "TestC15VT", 5000, 40000, 4)]},
     "C16": {"units": [rapid("freex", "TestC16Free", 1500, 800, 16), rapid("promisex", "TestC16", 10000, 80000)]},
-    "C17": {"units": [rapid("freex", "TestC17Free", 1000, 600, 16), rapid("ccallx", "TestC17", 20000, 150000)]},
+    "C17": {"units": [rapid("freex", "TestC17Free", 1000, 600, 16), rapid("freex", "TestC17FreeWide", 400, 400, 8), rapid("ccallx", "TestC17", 20000, 150000)]},
     "C18": {"units": [rapid("freex", "TestC18Free", 500, 400, 16), rapid("concx", "TestC18", 8000, 60000)]},
     "C19": {"units": [
         rapid("codecx", "TestC19Pad", 20000, 60000, 4),
